@@ -113,6 +113,11 @@ def targets(ctx):
     return out
 
 
+EDGE_ESCAPES = ['\\ud7ff', '\\ud800', '\\udbff', '\\udc00', '\\udfff', '\\ue000', '\\ud83d\\ude00', '\\U0000d800', '\\U0000dfff', '\\U0010ffff', '\\U00110000',
+                '\\Uffffffff', '\\U7fffffff', '\\U80000000', '\\u0000', '\\U00000000', '\\x00', '\\000', '\\0', '\\377', '\\400', '\\777', '\\x7f', '\\x80', '\\xff',
+                '\\x', '\\xg', '\\u12', '\\u12g4', '\\U1234', '\\q', '\\', '\\8', '\\18']
+
+
 def corr_ops(ctx):
     rnd = ctx.rnd
     ctx._c04 = [(s, spell(rnd, s)) for s in targets(ctx) for _ in range(2)]
@@ -123,6 +128,11 @@ def corr_ops(ctx):
         ops.append('unquote\t' + hx(gen.rs(rnd, 12, gen.WIDE)))
     for s in gen.exhaustive(['a', ' ', '"', "'", '\\', 'x', '4', 's'], 5 if ctx.thorough else 4):
         ops.append('unquote\t' + hx(s))
+    # escapes at the edges of what they can denote: surrogates, beyond U+10FFFF, NUL in every form, truncated forms —
+    # alone, inside either kind of quotes, and between text
+    for e in EDGE_ESCAPES:
+        for t in (e, '"' + e + '"', "'" + e + "'", 'a' + e + 'b', 'a ' + e, e + e):
+            ops.append('unquote\t' + hx(t))
     return ops
 
 
